@@ -133,8 +133,10 @@ inductive Call where
   | body (kind : BodyKind) (bytes : Bytes)
   /-- `body_form(&pairs)` -/
   | bodyForm (pairs : List (Bytes × Bytes))
-  /-- `body(Body::from_reader(reader, None))`: MIME `application/octet-stream`, length not known in advance -/
-  | bodyReader (bytes : Bytes)
+  /-- `body(Body::from_reader(reader, declared))`: MIME `application/octet-stream`; the reader yields `chunks` one after
+      the other (any chunking: a chain of cursors, a reader that returns one byte per read, …); `declared` is the length
+      the app states (`None` = not known in advance) -/
+  | bodyReader (chunks : List Bytes) (declared : Option Nat)
   /-- `query(&q)`: the URL after `set_query` (serde_qs + `Url::set_query`, opaque) -/
   | query (urlAfter : Bytes)
 deriving DecidableEq, Repr
@@ -144,17 +146,26 @@ structure Req where
   method : Bytes
   url : Bytes
   headers : Headers
+  /-- the bytes that reading the body to its end yields -/
   body : Bytes
-  /-- `Body::len().is_some()` (every constructor except `from_reader(_, None)`) -/
-  lenKnown : Bool
+  /-- `Body::len()`: the length the constructor recorded (`from_reader`: the declared one) -/
+  len : Option Nat
 deriving DecidableEq, Repr
 
 /-- http-types request.rs:223-227,474-478 `replace_body` + `copy_content_type_from_body` -/
 def copyContentType (h : Headers) (mime : Bytes) : Headers :=
   if h.contains ctName then h else h.insert ctName [mime]
 
-def setBody (r : Req) (k : BodyKind) (b : Bytes) (known : Bool := true) : Req :=
-  { r with body := b, lenKnown := known, headers := copyContentType r.headers k.mime }
+def setBody (r : Req) (k : BodyKind) (b : Bytes) (len : Option Nat) : Req :=
+  { r with body := b, len := len, headers := copyContentType r.headers k.mime }
+
+/-- What reading a `Body::from_reader(reader, declared)` to its end yields (http-types body.rs `poll_read`): the reader's
+    data — the concatenation of whatever pieces it hands out — cut at the declared length if one is given (a read never
+    goes past `length - bytes_read`; a declared length larger than the data ends at the reader's end). -/
+def readerContent (chunks : List Bytes) (declared : Option Nat) : Bytes :=
+  match declared with
+  | none => chunks.flatten
+  | some n => chunks.flatten.take n
 
 /-- `none` = panic: `HeaderName::from(&str)` / `to_header_values().unwrap()` reject non-ASCII
     (header_name.rs:71-75, header_value.rs:61-67, headers.rs:44) -/
@@ -162,9 +173,9 @@ def applyCall (r : Req) : Call → Option Req
   | .header n vs =>
       if isAscii n && vs.all isAscii then some { r with headers := r.headers.insert (lower n) vs } else none
   | .contentType d => some { r with headers := r.headers.insert ctName [d] }
-  | .body k b => some (setBody r k b)
-  | .bodyForm ps => some (setBody r .form (formEncode ps))
-  | .bodyReader b => some (setBody r .bytes b false)
+  | .body k b => some (setBody r k b (some b.length))
+  | .bodyForm ps => some (setBody r .form (formEncode ps) (some (formEncode ps).length))
+  | .bodyReader chunks d => some (setBody r .bytes (readerContent chunks d) d)
   | .query u => some { r with url := u }
 
 def foldCalls (r : Req) : List Call → Option Req
@@ -173,11 +184,12 @@ def foldCalls (r : Req) : List Call → Option Req
     | none => none
     | some r' => foldCalls r' cs
 
-/-- protocol.rs:196-204 (after fix fb3ba05): `if self.is_empty() != Some(true)` — i.e. unless the body is *known* to be
-    empty — it is taken out with `take_body()` (which runs `copy_content_type_from_body` for the empty replacement
-    body, MIME `application/octet-stream`) and read to the end; a body known to be empty is sent as `vec![]`. -/
+/-- protocol.rs:196-204 (after fix fb3ba05): `if self.is_empty() != Some(true)` — i.e. unless the recorded length is
+    `Some(0)` — the body is taken out with `take_body()` (which runs `copy_content_type_from_body` for the empty
+    replacement body, MIME `application/octet-stream`) and read **to its end** (`into_bytes` = `read_to_end`: as many reads
+    as the reader needs, however it chunks its data); a body of recorded length 0 is sent as `vec![]`. -/
 def intoProtocol (r : Req) : Req :=
-  if r.lenKnown && r.body.isEmpty then r else { r with headers := copyContentType r.headers octetStream }
+  if r.len == some 0 then { r with body := [] } else { r with headers := copyContentType r.headers octetStream }
 
 /-- `String::cmp` on header names: byte-wise lexicographic `≤` -/
 def bytesLe : Bytes → Bytes → Bool
@@ -221,7 +233,7 @@ deriving DecidableEq, Repr
 /-- `Http::get(url)…build()` / `caps.http.get(url)…send(..)`: `Request::new`, the calls, `into_protocol_request`,
     one `request_from_shell` (command.rs:585-596, client.rs:112-124). -/
 def buildRequest (c : ReqCase) : ReqObs :=
-  match foldCalls { method := upper c.method, url := c.url, headers := [], body := [], lenKnown := true } c.calls with
+  match foldCalls { method := upper c.method, url := c.url, headers := [], body := [], len := some 0 } c.calls with
   | none => .panic .header
   | some r =>
     let p := intoProtocol r
